@@ -1,15 +1,16 @@
 \* state-graph export for the conformance replay; harness/checks/C04.py rewrites the Deviations line with the
-\* deviations the implementation actually shows (all of them on the pinned tree)
-\* 2 holes, every action, 4 actions deep
+\* deviations the implementation actually shows
+\* allow_delete: protected holes / data are refused by workspace.remove_entity (not by the parent); attribute-only
+\* sessions (Reopen, Protect, Reopen) must reach the file; copies of a group that carries a plain child
 SPECIFICATION Spec
 CONSTANTS
   MaxHoles = 2
   Names = {"a", "b"}
-  DepthLens = {1, 2}
+  DepthLens = {1}
   Version = 21
   Deviations = {"RenameKeepsLabel", "WsRemoveKeepsChild", "HoleRemovalKeepsObjectRows", "HoleRemovalKeepsGroupChild", "StalePgIdCache", "EmptyTableRaises", "TableByLabel"}
   MaxLevel = 4
-  Acts = {"AddHole", "AddDepthData", "AddIntervalData", "SetValues", "Rename", "RemoveDataViaParent", "RemoveDataViaWorkspace", "RemoveHoleViaParent", "RemoveHoleViaWorkspace", "RemovePropertyGroup", "AddValuesToTable", "Reopen", "CopyGroup"}
+  Acts = {"AddHole", "AddDepthData", "Protect", "Reopen", "RemoveDataViaWorkspace", "RemoveDataViaParent", "RemoveHoleViaWorkspace", "RemoveHoleViaParent", "CopyGroup"}
   Kind = "float"
 VIEW vw
 INVARIANT ExportState
